@@ -231,7 +231,8 @@ PROPS = {
         'real': ['lsp/jsonrpc2 stream + conn', 'lsp/protocol.NewServer with the production handler chain and server dispatch', 'cmd/templ/lspcmd/proxy.Server DidOpen/DidChange/DidClose, DocumentContents/Document.Apply', 'parser, generator'],
         'stubbed': ['byte transport (parks, chunking)', 'the editor (reference model)', 'gopls (lsp.Server stub that records forwarded text and parks)', 'sync.Mutex (channel mutex)'],
         'assumptions': ['ASCII documents only: LSP columns are UTF-16 units, the server uses byte columns; whether that is a defect is outside this statement',
-                        'the editor never sends a range whose start lies after its end', 'only notifications are sent (no requests reach the unimplemented stub methods)'],
+                        'the editor never sends a range whose start lies after its end', 'the only request sent is workspace/symbol (answered by the stub), and it may be cancelled',
+                        'worker processes of this world run with GOMAXPROCS=1: when one release makes two goroutines runnable at once (a handler that has just replied and the handler it unblocked) the running one continues first; the opposite order is not explored'],
     },
     'C18': {
         'world': 'rpc',
@@ -256,14 +257,19 @@ PROPS = {
     'C19': {
         'world': 'sse',
         'level': 'exploration',
-        'builds': {'default': {}},
+        'builds': {'default': {}, 'race': {'race': True}},
+        'stages': [
+            {'name': 'main', 'build': 'default'},
+            {'name': 'race', 'build': 'race', 'params': {'burst': 1}, 'env': {'GORACE': 'halt_on_error=1'}, 'no_guard': True},
+        ],
         'tiers': {
-            'quick': {'runs': 6000, 'params': {'max_clients': 5, 'max_actions': 40, 'max_steps': 600}},
-            'thorough': {'runs': 1500000, 'params': {'max_clients': 8, 'max_actions': 120, 'max_steps': 2500}, 'shrink_budget_s': 300},
+            'quick': {'runs': 6000, 'stage_runs': {'race': 1500}, 'params': {'max_clients': 5, 'max_actions': 40, 'max_steps': 600}},
+            'thorough': {'runs': 1500000, 'stage_runs': {'race': 150000}, 'params': {'max_clients': 8, 'max_actions': 120, 'max_steps': 2500}, 'shrink_budget_s': 300},
         },
         'rule': 'one run = one tape-driven schedule of connect/broadcast/release/fail/cancel/stall/advance actions against the real sse.Handler '
                 'behind proxy.Handler inside a synctest bubble; distinct = distinct event-log hash; non-trivial = at least one client and one '
-                'broadcast and (a fault fired or the schedule switched between tasks)',
+                'broadcast and (a fault fired or the schedule switched between tasks). Stage race: the same world in a -race build where a client may connect or an idle client '
+                'may leave at the very moment of a broadcast (no quiescence in between); a race report, a crash or a lost event is the violation',
         'real': ['cmd/templ/generatecmd/sse.Handler (Send, ServeHTTP)', 'cmd/templ/generatecmd/proxy.Handler routing and SendSSE'],
         'stubbed': ['http.ResponseWriter/Flusher (parks on every Write)', 'request contexts', 'clock (testing/synctest fake clock)', 'net/http server loop, browser'],
         'assumptions': [
